@@ -133,9 +133,16 @@ def run(ctx):
             toks = T.render(s)
             for i in range(len(toks) - 3):
                 if re.match(r"^[A-Za-z_]\w*$", toks[i]) and toks[i + 1] == "[" and re.match(r"^\d+$", toks[i + 2]) and toks[i + 3] == "]":
-                    # find enclosing `N => {` arm of a len() match
-                    pre = " ".join(toks[max(0, i - 120):i])
-                    ok = bool(re.search(r"match __outer \. len \( \) \{ 0 => [^{}]* , 1 => \{ [^{}]*$", pre)) and toks[i] == "__outer" and toks[i + 2] == "0"
+                    # enclosing groups of the index expression
+                    stack = []
+                    for k in range(i):
+                        if toks[k] in ("{", "(", "[", "«"):
+                            stack.append(k)
+                        elif toks[k] in ("}", ")", "]", "»") and stack:
+                            stack.pop()
+                    in_one_arm = any(toks[k] == "{" and toks[max(0, k - 2):k] == ["1", "=>"] for k in stack)
+                    in_len_match = any(toks[k] == "{" and toks[max(0, k - 7):k] == ["match", "__outer", ".", "len", "(", ")"][-7:] or toks[k] == "{" and " ".join(toks[max(0, k - 6):k]) == "match __outer . len ( )" for k in stack)
+                    ok = in_one_arm and in_len_match and toks[i] == "__outer" and toks[i + 2] == "0"
                     ctx.ob("C07.H.template-index", b.key, "%s[%s]" % (toks[i], toks[i + 2]), ok, "constant index in a template must sit in the `1 =>` arm of `match __outer.len()`")
     # S: Initializer's expect branch and CheckMissing's check have the same generator condition
     ini = ctx.fn(common.TOK % "field::Initializer<'_>")
